@@ -134,6 +134,19 @@ PROPS = {
                     "liquidity instructions (increase / decrease / reposition v2) and the two-hop handlers are not yet executed; their fee wrappers are the same two functions (tfee)",
                     "transfer hooks and confidential transfers are out of scope"],
     },
+    "C17": {
+        "lean_modules": ["WP.Props.C17"],
+        "lean_support": [],
+        "families": [("hist", 20000, 400000)],
+        "history": True,
+        "rule": "hist, op xhop: the REAL two_hop_swap / two_hop_swap_v2 instruction executed through the program's entrypoint (native executor, real token programs) on a route of two pools — the current state of the "
+                "history and a state saved earlier by `H snap`, in either order — sharing an intermediate mint, for all four direction combinations, exact-in / exact-out, price limits on either leg, thresholds "
+                "off / exactly binding / one unit too tight, SPL and Token-2022 mints with transfer fees on the outer tokens, static and adaptive-fee pools; on a copy of the same accounts the two REAL single-swap "
+                "instructions are executed (exact-out: after quoting leg two); oracles: success iff both legs succeed, the intermediate amounts match and the threshold holds; every program-owned account, all vault "
+                "balances and the trader's three balances equal those after the two single swaps; a failed two-hop changes nothing; non-trivial = a successful two-hop",
+        "trusted": ["native executor and vendored host hooks (see C16)", "routes use a fee-free intermediate mint (with a fee on it the single-swap history pays the fee twice and is not comparable balance for balance)",
+                    "DuplicateTwoHopPool / InvalidIntermediaryMint: account-level guards, covered by the regenerated tables of C04/C15 only"],
+    },
     "C18": {
         "lean_modules": ["WP.Props.C18"],
         "lean_support": ["WP.Props.C09"],
